@@ -46,10 +46,14 @@ def main():
     t = open(gm).read().replace(wt, "/repo")
     open(gm, "w").write(t)
     results = {}
-    rc, out = sh("git -C /repo status --porcelain", "/repo")
+    # SEED_CHECK_REPO: run the checks against another working tree of /repo's HEAD (VERIF_REPO) instead of /repo itself
+    crepo = os.environ.get("SEED_CHECK_REPO", "/repo")
+    if crepo != "/repo":
+        ENV["VERIF_REPO"] = crepo
+    rc, out = sh("git -C %s status --porcelain" % crepo, crepo)
     if out.strip():
-        print("/repo is not clean, not running the checks"); return 1
-    rc, out = sh("git -C /repo apply %s" % os.path.join(dst, "patch.diff"), "/repo")
+        print("%s is not clean, not running the checks" % crepo); return 1
+    rc, out = sh("git -C %s apply %s" % (crepo, os.path.join(dst, "patch.diff")), crepo)
     try:
         for c in checks:
             t0 = time.time()
@@ -59,8 +63,9 @@ def main():
                           "tail": out.splitlines()[-3:]}
             print("check %s quick: exit %d, %d VIOLATION lines (%ds)" % (c, rc, len(viol), time.time() - t0))
     finally:
-        sh("git -C /repo checkout -- .", "/repo")
-        shutil.rmtree("/verif/replays", ignore_errors=True)
+        sh("git -C %s checkout -- ." % crepo, crepo)
+        if crepo == "/repo":
+            shutil.rmtree("/verif/replays", ignore_errors=True)
     meta.update({"breaks_property": prop, "confirmed": {"suite_passes_with_patch": True, "demo_fails_with_patch": True, "demo_passes_without": True},
                  "ran": ["go test ./... in a scratch worktree with the patch", "demo with / without the patch"] + ["./check %s quick with the patch applied to /repo" % c for c in checks],
                  "checks": results, "detected": any(v["exit"] == 1 and v["violation_lines"] > 0 for v in results.values())})
